@@ -245,6 +245,37 @@ Proof. unfold default_leaf_list. rewrite !by_opcodes_free, !pairs_leaf_free. ref
 End Idx.
 End SkipFree.
 
+(* every index child skipped: a leaf list reports nothing *)
+Section SkipAll.
+Variable udiff : pystr -> pystr -> pystr.
+Variable ops : path -> list value -> list value -> list opcode.
+Variable sk : path -> bool.
+Variables p1 p2 : path.
+Hypothesis Hall : forall i, sk (snoc p1 (PIdx i)) = true.
+
+Lemma added_from_all ys : forall j, added_from sk ys j p1 p2 = [].
+Proof. induction ys as [|y ys IH]; intros j; cbn; [reflexivity|]. rewrite IH. unfold report. rewrite Hall. reflexivity. Qed.
+Lemma removed_from_all xs : forall j, removed_from sk xs j p1 p2 = [].
+Proof. induction xs as [|x xs IH]; intros j; cbn; [reflexivity|]. rewrite IH. unfold report. rewrite Hall. reflexivity. Qed.
+Lemma diff_leaf_all x y i j : diff_leaf udiff sk x y (snoc p1 (PIdx i)) (snoc p2 (PIdx j)) = [].
+Proof. unfold diff_leaf. destruct x, y; try reflexivity. unfold diff_atom. rewrite Hall. reflexivity. Qed.
+Lemma pairs_leaf_all xs : forall ys i j, pairs_leaf udiff sk xs ys i j p1 p2 = [].
+Proof.
+  induction xs as [|x xs IH]; intros ys i j.
+  - cbn. apply added_from_all.
+  - destruct ys as [|y ys]; [apply (removed_from_all (x :: xs))|].
+    cbn [pairs_leaf]. rewrite IH, app_nil_r.
+    destruct (negb (i =? j) && py_eq_leaf x y); [unfold report; rewrite Hall; reflexivity|apply diff_leaf_all].
+Qed.
+Lemma by_opcodes_all os xs ys : by_opcodes udiff sk os xs ys p1 p2 = [].
+Proof.
+  unfold by_opcodes. induction os as [|o os IH]; cbn [flat_map]; [reflexivity|]. rewrite IH, app_nil_r.
+  destruct (otag o); [reflexivity|apply pairs_leaf_all|apply removed_from_all|apply added_from_all].
+Qed.
+Lemma default_leaf_list_all xs ys : default_leaf_list udiff ops sk xs ys p1 p2 = ([], false).
+Proof. unfold default_leaf_list. rewrite !by_opcodes_all. reflexivity. Qed.
+End SkipAll.
+
 (* ------------------------------------------------------------------ *)
 (* mutual_add_removes_to_become_value_changes commutes with a filter on *)
 (* the t1-side path                                                     *)
@@ -345,7 +376,9 @@ Hypothesis Hdropk : forall p a, okp p = true -> okk a = true -> R p = true ->
   R (snoc p (PKey a)) = false -> kf p a = true \/ sk (snoc p (PKey a)) = true.
 Hypothesis Hdropi : forall p i, okp p = true -> R p = true ->
   R (snoc p (PIdx i)) = false -> sk (snoc p (PIdx i)) = true.
-Hypothesis Hmode : zip c = true \/ (forall p i, R p = true -> R (snoc p (PIdx i)) = true).
+(* positional mode, or: at a kept level the index children are kept all together or dropped all together *)
+Hypothesis Hmode : zip c = true \/
+  (forall p, R p = true -> (forall i, R (snoc p (PIdx i)) = true) \/ (forall i, R (snoc p (PIdx i)) = false)).
 Hypothesis Hthr : thr_num c = 0 \/ (forall p a, kf p a = false).
 Hypothesis Hstab : forall k1 k2 p, dict_shortcut excl c k1 k2 p = dict_shortcut excl' c k1 k2 p.
 
@@ -549,12 +582,19 @@ Proof.
   intros G H F W O1 O2. unfold seqx_body.
   destruct (negb (zip c) && forallb is_atom xs && forallb is_atom ys) eqn:D.
   - destruct Hmode as [Z|Hm]; [rewrite Z in D; discriminate|].
-    assert (Fr : forall i, sk (snoc p1 (PIdx i)) = false).
-    { intros i. apply H1; [apply HGi; exact G|apply Hm; exact H]. }
-    rewrite (default_leaf_list_free udiff ops sk p1 p2 Fr).
-    pose proof (default_leaf_list_in udiff ops no_skip xs ys p1 p2) as In_.
-    destruct (default_leaf_list udiff ops no_skip xs ys p1 p2) as [es rec]. cbn [fst] in *.
-    symmetry. apply filter_all. intros e He. destruct (In_ e He) as [n E]. unfold keep_entry. rewrite E. apply Hm; exact H.
+    destruct (Hm p1 H) as [Hall|Hnone].
+    + assert (Fr : forall i, sk (snoc p1 (PIdx i)) = false).
+      { intros i. apply H1; [apply HGi; exact G|apply Hall]. }
+      rewrite (default_leaf_list_free udiff ops sk p1 p2 Fr).
+      pose proof (default_leaf_list_in udiff ops no_skip xs ys p1 p2) as In_.
+      destruct (default_leaf_list udiff ops no_skip xs ys p1 p2) as [es rec]. cbn [fst] in *.
+      symmetry. apply filter_all. intros e He. destruct (In_ e He) as [n E]. unfold keep_entry. rewrite E. apply Hall.
+    + assert (Al : forall i, sk (snoc p1 (PIdx i)) = true).
+      { intros i. apply Hdropi; [exact G|exact H|apply Hnone]. }
+      rewrite (default_leaf_list_all udiff ops sk p1 p2 Al). cbn [fst].
+      pose proof (default_leaf_list_in udiff ops no_skip xs ys p1 p2) as In_.
+      destruct (default_leaf_list udiff ops no_skip xs ys p1 p2) as [es rec]. cbn [fst] in *.
+      symmetry. apply filter_none. intros e He. destruct (In_ e He) as [n E]. unfold keep_entry. rewrite E. apply Hnone.
   - apply list_R; assumption.
 Qed.
 
